@@ -108,6 +108,10 @@ class ItemsObj:
         self.mapval = mapval
 
 
+class SymbolicFile:
+    """a text file object whose content is arbitrary (fp.read() is a fresh string)"""
+
+
 class RxSym:
     """Abstract view of one compiled pattern: MATCH predicate and GROUP functions over the line,
     named by the pattern text so that equal patterns share symbols."""
